@@ -328,6 +328,41 @@ theorem flip_frame (rows : List (Measures.MRow F)) (ppf : F → F) (infv α : F)
   · exact P07.or_swap ppf infv _ _ _ _ α pa pb pc pd r r' hr hr'
 
 
+/-! ### StochasticIPTW: the same three relations for the stochastic-plan weighted mean -/
+
+/-- **stoch_invariant.**  `StochasticIPTW.fit` is a function of the row multiset; recoding `A ↦ 1 − A` with the
+    plan's probability `p ↦ 1 − p` and the fitted propensity `π ↦ 1 − π` leaves every row weight, hence the
+    marginal outcome, unchanged; `Y ↦ cY + d` maps the marginal outcome to `c·m + d`. -/
+theorem stoch_invariant (l : List (Row F)) (p π : Row F → F) :
+    (∀ l₂, l.Perm l₂ → stochMean l p π = stochMean l₂ p π) ∧
+    (∀ p' π' : Row F → F, (∀ r, p' (flipRow r) = 1 - p r) → (∀ r, π' (flipRow r) = 1 - π r) →
+      stochMean (l.map flipRow) p' π' = stochMean l p π) ∧
+    (∀ (c d : F) (p' π' : Row F → F), (∀ r, p' (affRow c d r) = p r) → (∀ r, π' (affRow c d r) = π r) →
+      sumBy (fun r => stochOmega p π r * r.w) l ≠ 0 →
+      stochMean (l.map (affRow c d)) p' π' = c * stochMean l p π + d) := by
+  refine ⟨?_, ?_, ?_⟩
+  · intro l₂ h
+    simp only [stochMean, sumBy_perm h]
+  · intro p' π' hp hπ
+    have hω : ∀ r : Row F, stochOmega p' π' (flipRow r) = stochOmega p π r := by
+      intro r
+      unfold stochOmega
+      rw [hp, hπ]
+      show (if (!r.a) = true then _ else _) / (if (!r.a) = true then _ else _) = _
+      cases r.a <;> simp
+    simp only [stochMean, sumBy_map, hω]; rfl
+  · intro c d p' π' hp hπ hden
+    have hω : ∀ r : Row F, stochOmega p' π' (affRow c d r) = stochOmega p π r := by
+      intro r; unfold stochOmega; rw [hp, hπ]; rfl
+    simp only [stochMean, sumBy_map, hω]
+    show sumBy (fun r => stochOmega p π r * (r.w * (c * r.y + d))) l / sumBy (fun r => stochOmega p π r * r.w) l = _
+    have : sumBy (fun r => stochOmega p π r * (r.w * (c * r.y + d))) l
+        = c * sumBy (fun r => stochOmega p π r * (r.w * r.y)) l + d * sumBy (fun r => stochOmega p π r * r.w) l := by
+      rw [← sumBy_mul_left, ← sumBy_mul_left, ← sumBy_add]
+      apply sumBy_congr; intro r _; ring
+    rw [this]; field_simp
+
+
 /-! ### Change of units of a continuous outcome, `Y ↦ cY + d` -/
 
 /-- **outcome_affine.**  With the fitted outcome values of the re-expressed fit corresponding (`Q ↦ cQ + d`,
